@@ -262,6 +262,7 @@ def main():
     ap.add_argument("--only", nargs="*")
     ap.add_argument("--max", type=int, default=80)
     ap.add_argument("--jobs", type=int, default=16)
+    ap.add_argument("--out", default=None, help="report file (default selftest/mutation_report.json)")
     a = ap.parse_args()
     from pyvc import engine
     jobs = []
@@ -288,7 +289,7 @@ def main():
     for r in res:
         tot[r["verdict"]] = tot.get(r["verdict"], 0) + 1
     os.makedirs(f"{HERE}/selftest", exist_ok=True)
-    with open(f"{HERE}/selftest/mutation_report.json", "w") as fh:
+    with open(a.out or f"{HERE}/selftest/mutation_report.json", "w") as fh:
         json.dump({"total": tot, "per_function": summ, "mutants": res}, fh, indent=1)
     print(json.dumps(tot))
     for fn_, v in sorted(summ.items()):
